@@ -66,7 +66,7 @@ size_t cmpSize, int compressionType, float* hist_data)
 	size_t i, tmpSize = 8+MetaDataByteLength+exe_params->SZ_SIZE_TYPE;
 	unsigned char* szTmpBytes;	
 	
-	if(cmpSize!=8+4+MetaDataByteLength && cmpSize!=8+8+MetaDataByteLength) //4,8 means two posibilities of SZ_SIZE_TYPE
+	if((cmpSize!=8+4+MetaDataByteLength && cmpSize!=8+8+MetaDataByteLength) || is_lossless_compressed_data(cmpBytes, cmpSize)!=-1) //a wrapped stream can have the size of a constant stream: look at its first bytes too //4,8 means two posibilities of SZ_SIZE_TYPE
 	{
 		confparams_dec->losslessCompressor = is_lossless_compressed_data(cmpBytes, cmpSize);
 		if(confparams_dec->szMode!=SZ_TEMPORAL_COMPRESSION)
@@ -189,7 +189,7 @@ size_t cmpSize, int compressionType, float* hist_data)
 	//cost_end_();
 	//printf("totalCost_=%f\n", totalCost_);
 	free_TightDataPointStorageF2(tdps);
-	if(confparams_dec->szMode!=SZ_BEST_SPEED && cmpSize!=8+MetaDataByteLength+exe_params->SZ_SIZE_TYPE)
+	if(szTmpBytes!=cmpBytes) //an unwrapped copy was made
 		free(szTmpBytes);
 	return status;
 }
@@ -7639,7 +7639,7 @@ unsigned char* cmpBytes, size_t cmpSize)
 	size_t i, tmpSize = 8+MetaDataByteLength+exe_params->SZ_SIZE_TYPE;
 	unsigned char* szTmpBytes;	
 	
-	if(cmpSize!=8+4+MetaDataByteLength && cmpSize!=8+8+MetaDataByteLength) //4,8 means two posibilities of SZ_SIZE_TYPE
+	if((cmpSize!=8+4+MetaDataByteLength && cmpSize!=8+8+MetaDataByteLength) || is_lossless_compressed_data(cmpBytes, cmpSize)!=-1) //a wrapped stream can have the size of a constant stream: look at its first bytes too //4,8 means two posibilities of SZ_SIZE_TYPE
 	{
 		confparams_dec->losslessCompressor = is_lossless_compressed_data(cmpBytes, cmpSize);
 		if(confparams_dec->szMode!=SZ_TEMPORAL_COMPRESSION)
@@ -7727,7 +7727,7 @@ unsigned char* cmpBytes, size_t cmpSize)
 	}	
 	
 	free_TightDataPointStorageF2(tdps);
-	if(confparams_dec->szMode!=SZ_BEST_SPEED && cmpSize!=8+MetaDataByteLength+exe_params->SZ_SIZE_TYPE)
+	if(szTmpBytes!=cmpBytes) //an unwrapped copy was made
 		free(szTmpBytes);
 	return status;
 }
